@@ -444,9 +444,11 @@ def main(ck):
     ok = ck.coq_build(["C10/Proofs.vo", "C10/RegexProofs.vo", "C10/RegexSearch.vo", "C10/FlushClear.vo", "C10/ListingCond.vo", "C10/Corr.vo", "C10/Props.vo", "C10/Refuted.vo"])
     if ok:
         ck.coq_props(["C10/Props.v", "C10/Refuted.v"])
+    ck.log("coq built and property theorems re-checked")
     binp = ck.go_build("./cmd/c10", "c10")
     if not binp:
         return
+    ck.log("harness built")
     files = sorted(glob.glob(os.path.join(ck.verif, "corpus", "C10", "*.case")))
     n = 140 if ck.tier == "quick" else 2500
     if getattr(ck, "replay", None):
@@ -463,6 +465,7 @@ def main(ck):
         ck.broken.append("harness c10 failed rc=%d cases=%d matrices=%d: %s" % (rc, len(cases), len(matrices), out[-800:]))
         return
     matrix = matrices[0]
+    ck.log("harness run done: %d cases" % len(cases))
     # ---- second configuration: enable-perl-regrep = true (cases without regex atoms; the matrix is recorded, not judged)
     if not getattr(ck, "replay", None):
         nperl = 25 if ck.tier == "quick" else 300
@@ -482,6 +485,7 @@ def main(ck):
             "index_equals_anchored": sum(1 for u, a, i in rows if i == a),
             "index_equals_neither": sum(1 for u, a, i in rows if i != a and i != u)}
 
+    ck.log("perl-regrep configuration done")
     # ---- the pattern x value matrix: model of today's translation / of the repaired one against the real index, and the
     # shape classes of every pattern that occurs anywhere in this run
     allpats = {}
@@ -576,6 +580,7 @@ def main(ck):
                 ck.broken.append("correspondence C10 regex translation: the index agrees with Go regexp but with neither model variant, e.g. /%s/ on %r"
                                  % (matrix["pats"][a]["pat"], matrix["pats"][a]["rows"][b - 1]["v"]))
 
+    ck.log("regex matrix evaluated")
     # ---- model evaluation of the cases. The model has three independent current/repaired switches (key lookup sees flushed
     # items only; show-series path treats nil as no constraint; regex translation). All-current and all-repaired are evaluated
     # on every case, the mixed variants only on cases that match neither.
@@ -650,6 +655,7 @@ def main(ck):
                         for var, r in others.items():
                             variants[var] = r.get(i, [])
                     mm[i] = variants
+    ck.log("cases evaluated on the model")
     # ---- verdicts
     nontriv = set()
     hist = {}
